@@ -2,7 +2,7 @@
    Only property theorems and their assumptions. *)
 From Coq Require Import List NArith Bool.
 From Quill Require Import Queue.BQDefs Backend.BEDefs Backend.BEInv Backend.BEDispatch.
-From Quill Require TieCtx TieBE ExpectedBE.
+From Quill Require TieCtx TieBE ExpectedBE Tie TieC02.
 From Quill Require Queue.UQDefs.
 Import ListNotations.
 Local Open Scope N_scope.
@@ -33,6 +33,19 @@ Proof.
         (conj TieBE.src_be_cleanup_invalidated_thread_contexts TieBE.src_be_flush_and_run_active_sinks))))))))))).
 Qed.
 Print Assumptions C03_tie_backend_loop.
+
+(* T-src: M-BE treats a thread's queue as an atomic FIFO of records (micro-step granularity). That abstraction is what
+   C01 / C02 prove of the real queues under release/acquire, for the memory orders, the method skeletons and the
+   statement orders (re-check of the old node before it is left, commit before delete, publish before switch) read
+   from the source on every run: *)
+Theorem C03_tie_queue_abstraction :
+  Quill.Queue.BQDefs.sufficient Quill.Tie.src_orders = true /\
+  Quill.Queue.UQDefs.usufficient Quill.TieC02.src_ucfg = true /\
+  (QuillGen.SrcFacts.uq_publish_before_switch = true /\ QuillGen.SrcFacts.uq_commit_write_before_publish = true /\
+   QuillGen.SrcFacts.uq_delete_before_switch = true /\ QuillGen.SrcFacts.uq_recheck_present = true /\
+   QuillGen.SrcFacts.uq_commit_before_delete = true /\ QuillGen.SrcFacts.uq_next_load_after_empty = true).
+Proof. exact (conj Quill.Tie.src_orders_sufficient (conj Quill.TieC02.src_ucfg_sufficient Quill.TieC02.uq_order_facts_ok)). Qed.
+Print Assumptions C03_tie_queue_abstraction.
 
 Theorem C03_tie_ctx_removal_guard : QuillGen.SrcFacts.be_ctx_removal_requires_empty_buffer = true.
 Proof. exact TieCtx.src_be_ctx_removal_requires_empty_buffer. Qed.
